@@ -72,6 +72,9 @@ type vCmd struct {
 	Span int64  `json:"span,omitempty"`
 	A    int64  `json:"a,omitempty"`
 	B    int64  `json:"b,omitempty"`
+	// le/ge: seek to TS as given, also when it lies outside the iterator's bounds
+	// (otherwise TS is clamped into the bounds first)
+	Raw bool `json:"raw,omitempty"`
 }
 
 type vScript struct {
